@@ -134,6 +134,15 @@ impl PolynomialTraits for IntermediatePolynomial {
         }
     }
 }
+// Drops trailing zeros of the fractional part only ("2.50" -> "2.5", "10" stays "10")
+fn trim_fraction(formatted: &str) -> &str {
+    if formatted.contains('.') {
+        formatted.trim_end_matches('0').trim_end_matches('.')
+    } else {
+        formatted
+    }
+}
+
 impl std::fmt::Display for IntermediatePolynomial {
     fn fmt(&self, f: &mut std::fmt::Formatter<'_>) -> std::fmt::Result {
         if self.terms.is_empty() {
@@ -161,8 +170,7 @@ impl std::fmt::Display for IntermediatePolynomial {
                 match f.precision() {
                     Some(p) => {
                         let formatted = format!("{:.*}", p, abs_coeff);
-                        let trimmed = formatted.trim_end_matches('0').trim_end_matches('.');
-                        write!(f, "{}", trimmed)?
+                        write!(f, "{}", trim_fraction(&formatted))?
                     }
                     None => write!(f, "{}", abs_coeff)?,
                 }
@@ -175,8 +183,7 @@ impl std::fmt::Display for IntermediatePolynomial {
                     match f.precision() {
                         Some(p) => {
                             let formatted = format!("^{:.*}", p, exponent);
-                            let trimmed = formatted.trim_end_matches('0').trim_end_matches('.');
-                            write!(f, "{}", trimmed)?
+                            write!(f, "{}", trim_fraction(&formatted))?
                         }
                         None => write!(f, "^{}", exponent)?,
                     }
